@@ -760,6 +760,15 @@ def r06_12(ctx: Ctx, rule: str = "R06.12") -> None:
                   "the member->folder walk binds the next non-empty member to `folders[cursor]` without first passing over folders that hold no substream: "
                   "after a folder with NumUnpackStream 0 every later member is bound to the wrong folder and byte position (valid archive refused or wrong data)",
                   construct="zero-stream folder skip")
+        # ... ALL of them: several folders without substreams may follow one another (two sessions that appended only directories): the
+        # passing-over repeats until a folder with substreams is reached (a `while` on the count, or a loop nested in the member loop)
+        whiles = [w for w in walk(g.node) if isinstance(w, ast.While)]
+        repeated = [t for t in tests if any(w.test is t.ast or any(x is t.ast for st in w.body for x in ast.walk(st)) for w in whiles)]
+        if tests:
+            ctx.check(bool(repeated), rule, g, tests[0].ast, "the passing-over of zero-stream folders repeats (a loop)",
+                      f"`{norm(tests[0].ast)[:90]}` passes over ONE folder without substreams: when two or more such folders follow one another (w[a] a[dirs] a[dirs] a[b]: two sessions "
+                      "that appended only directories) the next member is bound to an empty folder - the later members cannot be read (DecompressionError) or are read at "
+                      "the wrong position", construct="zero-stream folder skip is not a loop")
     # the walk keeps TWO cursors: the folder number and the number of the folder's first packed stream.  Wherever the folder cursor is advanced
     # (passing over an empty folder, finishing a folder) the stream cursor is advanced in the same block by the folder's own packed-stream count
     fsteps = [n for n in walk(g.node) if isinstance(n, ast.AugAssign) and isinstance(n.op, ast.Add) and isinstance(n.target, ast.Attribute) and n.target.attr == "folder"]
@@ -1359,6 +1368,12 @@ def run(ctx: Ctx) -> None:
     _c10.r10_11(ctx)  # kinds as the format assigns them (is_directory), under C06 too
     _c10.r10_13(ctx, rule="R06.24")
     shared.layout_agreement(ctx, "R06.19")
+    shared.field_order_agreement(ctx, "R06.26")
+    shared.windowed_traversal(ctx, "R06.27")
+    shared.per_member_values(ctx, "R06.28")
+    _c04s.r04_12(ctx)  # a packed header with a packed-stream CRC is read once for the CRC and once more by the decoder
+    from . import c08 as _c08x
+    _c08x.r08_14(ctx, rule="R06.29")  # folder-level instead of per-file CRCs: the digests go to the right members
     r06_21(ctx)
     r06_18(ctx)
     r06_17(ctx)
